@@ -42,6 +42,11 @@ def step (_ : Unit) (line : String) : Unit × String :=
         if t0 < 0 ∨ t0 > 2199023255552 ∨ t0ns < 0 ∨ t0ns > 999999999 ∨ mutk > 7 ∨ src.length > 255 ∨
            salt ≥ 18446744073709551616 then none
         pure "ok").getD "bad-op"
+    | ["resetconc", key, ncid, ng, iters] =>
+      (do
+        let key ← parseBytes key; let ncid ← parseNat ncid; let ng ← parseNat ng; let iters ← parseNat iters
+        if key.length ≠ 32 ∨ ncid < 1 ∨ ncid > 64 ∨ ng < 1 ∨ ng > 64 ∨ iters < 1 ∨ iters > 100000 then none
+        pure "ok").getD "bad-op"
     | ["reset", key, cid] =>
       (do
         let key ← parseBytes key; let _ ← parseBytes cid
